@@ -45,6 +45,39 @@ var (
 
 var dirtyFills = []byte{0xff, 0x5a}
 
+// results the caller still holds when the object (or the package) is used again
+var nHeldWires, nHeldValues int64
+
+// joinCopy copies the present content of a wire.
+func joinCopy(w enc.Wire) []byte {
+	b := []byte{}
+	for _, s := range w {
+		b = append(b, s...)
+	}
+	return b
+}
+
+func modelClass(m *Model) string {
+	if m.noCopy {
+		return "nocopy model"
+	}
+	return "copy-mode model"
+}
+
+// failHeld reports that a result the caller kept changed under a later use. The record is
+// attributed to the model (not to the deviating field of the value at hand: which value shows
+// it is incidental), so one cause in a template gives one key.
+func failHeld(c *caseID, object, symptom, detail string, extra map[string]any) {
+	m := c.m
+	rp := map[string]any{"model": m.ImportPath + "." + m.Name, "value": c.describe()}
+	for k, v := range extra {
+		rp[k] = v
+	}
+	addRec(&rec{Clause: "C13.rt", Where: m.ID(), Kind: object, Label: modelClass(m), Symptom: symptom, Ins: true,
+		Generic: object + " | " + symptom,
+		Detail:  c.describe() + ": " + detail, Replay: rp, ord: c.ord})
+}
+
 func filled(n int, fill byte) []byte {
 	b := make([]byte, n)
 	for i := range b {
@@ -248,6 +281,7 @@ func reuseChecks(c *caseID, e encoded) {
 	}
 
 	// ---- re-used encoder object
+	var heldFailed [4]bool // one report per value and family of held results
 	encFailed := false
 	for _, p := range pairs {
 		for _, between := range []bool{true, false} {
@@ -257,17 +291,29 @@ func reuseChecks(c *caseID, e encoded) {
 			enco := m.NewEnc()
 			var kn1, kn2 knobs
 			v1 := buildStruct(m, 0, p.first.base, p.first.devs, &kn1)
+			var held enc.Wire // what Encode(p) returned: the caller keeps it
+			var heldWas []byte
 			func() {
 				defer func() { recover() }() // the predecessor's own problems are reported by its own case
 				setKnobs(reflect.ValueOf(enco).Elem(), &kn1)
 				m.Init(enco, v1.Interface())
 				if between {
-					m.Encode(enco, v1.Interface())
+					held = m.Encode(enco, v1.Interface())
+					heldWas = joinCopy(held)
 				}
 			}()
 			v2 := buildStruct(m, 0, p.second.base, p.second.devs, &kn2)
 			atomic.AddInt64(&nReuseEncodes, 1)
 			got, announced, problem := produce(m, enco, v2, &kn2, nil)
+			if held != nil && !heldFailed[0] {
+				atomic.AddInt64(&nHeldWires, 1)
+				if now := joinCopy(held); !bytes.Equal(now, heldWas) {
+					heldFailed[0] = true
+					failHeld(c, "encoder object", "the wire returned by the first Encode no longer holds the first value's encoding after the encoder object was used for a second value",
+						fmt.Sprintf("one encoder object, w1 := Init(p); Encode(p), then Init(v); Encode(v) (%s): w1 was %s and is now %s (the second encoding is %s)", how(p), hexBrief(heldWas), hexBrief(now), hexBrief(got)),
+						map[string]any{"order": how(p), "first_wire_before": hexBrief(heldWas), "first_wire_after": hexBrief(now)})
+				}
+			}
 			if clause, sub := judge(m, got, announced, problem, p.second.ref.bytes, p.second.ref.v); clause != "" {
 				seq := "Init(p); Encode(p); Init(v); Encode(v)"
 				if !between {
@@ -278,6 +324,82 @@ func reuseChecks(c *caseID, e encoded) {
 					map[string]any{"sequence": seq, "order": how(p), "encoded": hexBrief(p.second.ref.bytes), "got": hexBrief(got)})
 				encFailed = true
 			}
+		}
+	}
+
+	// ---- results held across a second use of FRESH objects / the public API
+	// (no object is shared by the caller: whatever couples the two uses is package-level state of
+	// the generated code or of the library - a pool, a cache, a scratch buffer)
+	// first value: the all-typical and the all-maximal value (the all-minimal value encodes to
+	// nothing in most models and a first value equal to the second cannot show a change)
+	for _, p := range pairs[1:len(bases)] {
+		if p.first.ref == nil {
+			continue
+		}
+		first, second := p.first.ref, p.second.ref
+		mk := func(v val, kn *knobs) any { return buildStruct(m, 0, v.base, v.devs, kn).Interface() }
+		type encFn struct {
+			name string
+			f    func(v val) enc.Wire
+		}
+		encs := []encFn{{"XEncoder.Init+Encode on a new encoder object", func(v val) enc.Wire {
+			var kn knobs
+			x := mk(v, &kn)
+			e := m.NewEnc()
+			setKnobs(reflect.ValueOf(e).Elem(), &kn)
+			m.Init(e, x)
+			return m.Encode(e, x)
+		}}}
+		if m.PubEncode != nil && m.PubBytes != nil {
+			encs = append(encs,
+				encFn{"value.Encode()", func(v val) enc.Wire { return m.PubEncode(mk(v, nil)) }},
+				encFn{"value.Bytes()", func(v val) enc.Wire { return enc.Wire{m.PubBytes(mk(v, nil))} }})
+		}
+		for _, ef := range encs {
+			if heldFailed[2] {
+				break
+			}
+			func() {
+				defer func() { recover() }() // panics of the plain entry points are reported by C13.len / C13.rt of the value
+				w1 := ef.f(p.first)
+				was := joinCopy(w1)
+				w2 := ef.f(p.second)
+				atomic.AddInt64(&nHeldWires, 1)
+				if now := joinCopy(w1); !bytes.Equal(now, was) {
+					heldFailed[2] = true
+					failHeld(c, "separate encoder objects", "the wire returned for the first value no longer holds its encoding after a second value was encoded",
+						fmt.Sprintf("w1 := %s of p, then the same for v (%s): w1 was %s and is now %s (the second encoding is %s)", ef.name, how(p), hexBrief(was), hexBrief(now), hexBrief(joinCopy(w2))),
+						map[string]any{"order": how(p), "entry_point": ef.name, "first_wire_before": hexBrief(was), "first_wire_after": hexBrief(now)})
+				}
+			}()
+		}
+		type parseFn struct {
+			name string
+			f    func(r enc.ParseReader, ic bool) (any, error)
+		}
+		parses := []parseFn{{"XParsingContext.Init+Parse on a new context object", m.Parse}}
+		if m.PubParse != nil {
+			parses = append(parses, parseFn{"Parse" + m.Name + "()", m.PubParse})
+		}
+		for _, pf := range parses {
+			if heldFailed[3] {
+				break
+			}
+			func() {
+				defer func() { recover() }()
+				r1, err := pf.f(enc.NewBufferReader(first.bytes), false)
+				if err != nil || r1 == nil || reflect.ValueOf(r1).IsNil() || diffStruct(m, first.v, reflect.ValueOf(r1), m.Name) != "" {
+					return // the first value's own case reports this
+				}
+				pf.f(enc.NewBufferReader(second.bytes), false)
+				atomic.AddInt64(&nHeldValues, 1)
+				if d := diffStruct(m, first.v, reflect.ValueOf(r1), m.Name); d != "" {
+					heldFailed[3] = true
+					failHeld(c, "separate parsing context objects", "the value returned by the first parse no longer equals the first value after a second encoding was parsed",
+						fmt.Sprintf("r1 := %s of enc(p), then the same for enc(v) (%s): r1 reproduced p before the second parse and now differs at %s; enc(p) = %s, enc(v) = %s", pf.name, how(p), d, hexBrief(first.bytes), hexBrief(second.bytes)),
+						map[string]any{"order": how(p), "entry_point": pf.name, "first_encoded": hexBrief(first.bytes), "encoded": hexBrief(second.bytes), "difference": d})
+				}
+			}()
 		}
 	}
 
@@ -298,16 +420,29 @@ func reuseChecks(c *caseID, e encoded) {
 					sy, de = "parser "+normPanic(r), fmt.Sprint(r)
 				}
 			}()
+			var held any // what the first Parse returned: the caller keeps it
 			func() {
 				defer func() { recover() }()
 				m.CtxInit(ctx)
-				m.CtxParse(ctx, enc.NewBufferReader(first.bytes), false)
+				r1, err := m.CtxParse(ctx, enc.NewBufferReader(first.bytes), false)
+				if err == nil && r1 != nil && !reflect.ValueOf(r1).IsNil() && diffStruct(m, first.v, reflect.ValueOf(r1), m.Name) == "" {
+					held = r1
+				}
 			}()
 			atomic.AddInt64(&nReuseParses, 1)
 			sy, de = checkParse(m, func(r enc.ParseReader, ic bool) (any, error) {
 				m.CtxInit(ctx)
 				return m.CtxParse(ctx, r, ic)
 			}, p.second.ref.bytes, false, p.second.ref.v)
+			if held != nil && !heldFailed[1] {
+				atomic.AddInt64(&nHeldValues, 1)
+				if d := diffStruct(m, first.v, reflect.ValueOf(held), m.Name); d != "" {
+					heldFailed[1] = true
+					failHeld(c, "parsing context object", "the value returned by the first Parse no longer equals the first value after the context object was used for a second Parse",
+						fmt.Sprintf("one parsing context, r1 := Init(); Parse(enc(p)), then Init(); Parse(enc(v)) (%s): r1 reproduced p before the second Parse and now differs at %s; enc(p) = %s, enc(v) = %s", how(p), d, hexBrief(first.bytes), hexBrief(p.second.ref.bytes)),
+						map[string]any{"order": how(p), "first_encoded": hexBrief(first.bytes), "encoded": hexBrief(p.second.ref.bytes), "difference": d})
+				}
+			}
 		}()
 		if sy != "" {
 			c.fail("C13.rt", "parsing context object re-used for a second value: the value is not reproduced",
